@@ -176,7 +176,7 @@ func registerModels(e *Engine) {
 		if st.log != nil {
 			st.log.lockEvent(st, p, true)
 		}
-		st.heap.set(sp.obj, navSet(st.hget(sp.obj), sp.path, ConstBV(cur.(*Term).s.W, 1)))
+		st.hset(sp.obj, navSet(st.hget(sp.obj), sp.path, ConstBV(cur.(*Term).s.W, 1)))
 		return nil
 	}
 	ic["(*sync.Mutex).Unlock"] = func(e *Engine, st *State, fr *Frame, in ssa.CallInstruction, a []Val) Val {
@@ -186,7 +186,7 @@ func registerModels(e *Engine) {
 		if t, ok := cur.(*Term); ok && t.IsConst() && t.c == 0 {
 			abort("panic", "sync: unlock of unlocked mutex")
 		}
-		st.heap.set(sp.obj, navSet(st.hget(sp.obj), sp.path, ConstBV(cur.(*Term).s.W, 0)))
+		st.hset(sp.obj, navSet(st.hget(sp.obj), sp.path, ConstBV(cur.(*Term).s.W, 0)))
 		if st.log != nil {
 			st.log.lockEvent(st, p, false)
 		}
@@ -370,7 +370,7 @@ func (e *Engine) bigSetV(st *State, v Val, t *Term, bits int) Val {
 	if x, ok := wideConst(t); ok {
 		bits = toSigned(x, bigW).BitLen() + 1
 	}
-	st.heap.set(p.obj, BigIntVal{t: t, bits: bits})
+	st.hset(p.obj, BigIntVal{t: t, bits: bits})
 	return p
 }
 
@@ -714,7 +714,7 @@ func registerBig(e *Engine) {
 		if pr == 0 {
 			pr = 53
 		}
-		st.heap.set(p.obj, BigFloatVal{f: f, prec: pr})
+		st.hset(p.obj, BigFloatVal{f: f, prec: pr})
 		return p
 	}
 	ic["(*math/big.Float).SetPrec"] = func(e *Engine, st *State, fr *Frame, in ssa.CallInstruction, a []Val) Val {
@@ -722,7 +722,7 @@ func registerBig(e *Engine) {
 		cur := getF(e, st, p)
 		pr := e.needInt(st, a[1], "SetPrec")
 		// identity on the value: the harness assumes representability at pr
-		st.heap.set(p.obj, BigFloatVal{f: cur.f, prec: pr})
+		st.hset(p.obj, BigFloatVal{f: cur.f, prec: pr})
 		return p
 	}
 	ic["(*math/big.Float).Float64"] = func(e *Engine, st *State, fr *Frame, in ssa.CallInstruction, a []Val) Val {
